@@ -238,9 +238,12 @@ struct ReluctantRepeatIterator<'a> {
     matcher: &'a crate::re_matcher::ReMatcher<'a>,
     operation: &'a Operation,
     min: usize,
-    max: usize,
-    counter: usize,
-    position: Option<usize>,
+    bound: usize,
+    position: usize,
+    started: bool,
+    descend: bool,
+    iterators: Vec<Box<dyn Iterator<Item = usize> + 'a>>,
+    positions: Vec<usize>,
 }
 
 impl<'a> ReluctantRepeatIterator<'a> {
@@ -255,9 +258,12 @@ impl<'a> ReluctantRepeatIterator<'a> {
             matcher,
             operation,
             min,
-            max,
-            counter: 0,
-            position: Some(position),
+            bound: max.min(matcher.search.len() - position + 1),
+            position,
+            started: false,
+            descend: true,
+            iterators: Vec::new(),
+            positions: Vec::new(),
         }
     }
 }
@@ -265,28 +271,40 @@ impl<'a> ReluctantRepeatIterator<'a> {
 impl Iterator for ReluctantRepeatIterator<'_> {
     type Item = usize;
 
+    // Visits the tree of repeated matches in pre-order: fewer repetitions are
+    // offered before more, and every alternative match of the repeated
+    // operation is explored on backtracking.
     fn next(&mut self) -> Option<Self::Item> {
-        loop {
-            if let Some(position) = self.position {
-                let mut it = self.operation.matches_iter(self.matcher, position);
-                if let Some(position) = it.next() {
-                    self.counter += 1;
-                    if self.counter > self.max {
-                        self.position = None;
-                    } else {
-                        self.position = Some(position);
-                    }
-                }
-            } else if self.min == 0 && self.counter == 0 {
-                self.counter += 1;
-            } else {
-                self.position = None;
-            }
-            if self.counter >= self.min || self.position.is_none() {
-                break;
+        if !self.started {
+            self.started = true;
+            if self.min == 0 {
+                return Some(self.position);
             }
         }
-        self.position
+        loop {
+            if self.descend && self.iterators.len() < self.bound {
+                let p = self.positions.last().copied().unwrap_or(self.position);
+                self.iterators
+                    .push(self.operation.matches_iter(self.matcher, p));
+            }
+            let depth = self.iterators.len();
+            let top = self.iterators.last_mut()?;
+            if let Some(p) = top.next() {
+                self.positions.truncate(depth - 1);
+                // an iteration that consumed nothing is not repeated once the
+                // minimum is reached: further repetitions could add nothing
+                let previous = self.positions.last().copied().unwrap_or(self.position);
+                self.descend = p != previous || depth < self.min;
+                self.positions.push(p);
+                if depth >= self.min {
+                    return Some(p);
+                }
+            } else {
+                self.iterators.pop();
+                self.positions.truncate(depth - 1);
+                self.descend = false;
+            }
+        }
     }
 }
 
